@@ -485,6 +485,23 @@ func (p *queryPlan) addSpecifiedData(ctx context.Context, r table.Row, cls *sema
 		lo = nlo
 	}
 
+	// The limits of a bound in the object position ("id"@[?lo,?hi]) come from
+	// the row as well: this copy of the clause carries them to the filter that
+	// checks the anchors of predicate objects.
+	for _, b := range []struct {
+		alias string
+		limit **time.Time
+	}{{cls.OLowerBoundAlias, &cls.OLowerBound}, {cls.OUpperBoundAlias, &cls.OUpperBound}} {
+		if b.alias == "" {
+			continue
+		}
+		v, ok := r[b.alias]
+		if !ok || v == nil || v.T == nil {
+			return fmt.Errorf("no time anchor value available for bound %s", b.alias)
+		}
+		*b.limit = v.T
+	}
+
 	tracer.V(3).Trace(p.tracer, func() *tracer.Arguments {
 		return &tracer.Arguments{
 			Msgs: []string{fmt.Sprintf("Corrected clause: %v", cls)},
